@@ -8,7 +8,7 @@ Decide: spec/RotationDerivatives.tla -- along a ray psi = eps n (integer n of in
 Bind:   (spec -> code) for every case (ray, direction) the harness substitutes eps = 2^-j (j up to 30: |psi| down to 1e-9; psi is
         exactly representable), evaluates TLC's elements with sin, cos, cot computed to 40 digits in rational arithmetic, and compares
         with Exp_SO3, T_SO3, T_SO3_inv (values), Exp_SO3_psi, T_SO3_psi, T_SO3_inv_psi (unit directions), T_SO3_dot (general direction)
-        and Exp_SE3_h (assembled from the same elements).  Absolute tolerance 1e-8 (relative to 1 + |value|).
+        and Exp_SE3_h (assembled from the same elements).  Absolute tolerance 1e-7 (relative to 1 + |value|).
         Float supplement for the logarithm derivatives (not derived by TLC): Log_SO3_A(Exp(psi)) : Exp_SO3_psi(psi) = I and
         Log_SE3_H(Exp(h)) : Exp_SE3_h(h) = I (their action on the tangent space of the group).
 Not covered (restriction): Log_SO3_A, Log_SE3_H beyond that supplement (derivatives with respect to matrix entries); the quaternion
@@ -23,7 +23,7 @@ import numpy as np
 from .. import tlc
 from ..cases import enumerate_cases
 
-TOL = 1e-8
+TOL = 1e-7
 
 
 def sincos(x, terms=60):
@@ -62,7 +62,7 @@ def run(ctx):
     ctx.level = "model_checking"
     from cardillo.math import rotations as rot
 
-    r, cases = enumerate_cases(ctx, "RotationDerivatives", {"Stride": 1}, invariants=("AxisFixed", "NothingLost", "EdgesZero"), tag="rotder", timeout=1800)
+    r, cases = enumerate_cases(ctx, "RotationDerivatives", {"Stride": 1 if ctx.thorough else 2}, invariants=("AxisFixed", "NothingLost", "EdgesZero"), tag="rotder", timeout=1800)
     if not cases:
         raise tlc.MachineryError("TLC produced no cases for RotationDerivatives")
     js = [0, 1, 2, 3, 5, 6, 7, 8, 9, 11, 14, 17, 20, 23, 26, 28, 30] if ctx.thorough else [0, 1, 2, 4, 6, 7, 8, 9, 13, 18, 23, 27, 30]
@@ -177,9 +177,9 @@ def run(ctx):
             f"{ncmp} comparisons")
     ctx.coverage = {"states": r.distinct, "transitions": max(r.generated, 1), "traces_validated_against_impl": ncmp, "samples": samples or [{"case": cases[0]["case"]}],
                     "points": len(npoints), "exhaustive": True,
-                    "rule": "6 rays (integer vectors of integer length 1 .. 9) x 4 directions (the unit vectors, one general) x scales 2^-2 .. 2^-30; every entry of the maps and "
+                    "rule": "6 rays (thorough: 16; integer vectors of integer length 1 .. 13) x 4 directions (the unit vectors, one general) x scales 2^-2 .. 2^-30; every entry of the maps and "
                             "of their derivatives along the direction"}
-    ctx.assumptions = ["sin, cos, cot(a/2) are evaluated by the harness to more than 40 digits in rational arithmetic; the comparison tolerance is 1e-8 relative to 1 + |value| (the routines' own closed forms are accurate to a few 1e-9 at |psi| ~ 1e-8)",
+    ctx.assumptions = ["sin, cos, cot(a/2) are evaluated by the harness to more than 40 digits in rational arithmetic; the comparison tolerance is 1e-7 relative to 1 + |value| (the routines' closed forms lose digits to cancellation like 1e-16 / |psi|: about 1e-8 at |psi| ~ 1e-8; the defects found were errors of 1e-4 to 0.5)",
                        "claimed for Exp_SO3_psi, T_SO3_psi, T_SO3_dot, T_SO3_inv_psi, Exp_SE3_h (and the maps themselves); Log_SO3_A and Log_SE3_H are not covered; the "
                        "quaternion tangent maps are decided under C01"]
 
